@@ -43,84 +43,104 @@ def rule_timer(ctx, f, ty):
                     ctx.ob("T1", "%s|%s|target" % (ty, strip_generics(b.path).split("::")[-1]), agg_field(t, target_field) == P(1), "the timer must hold the histogram it was given", site=b.raw["span"]["at"])
                     ctx.saw(b)
     ctx.floor("T1", ty + " constructions", n_aggs, 1)
-    # T2 writes of observed
-    writers = []
+    # T2-T5 on the NORMAL FORM of each way a timer ends: every private method of the timer (and stop_and_record under observe_duration) is expanded
+    # in place, so that it does not matter how the work is cut into helpers (`observe(record)`, `stop()` + `stop_recording()`, ...)
+    from pvrules import inline
+    vis = {b_.path: b_.raw.get("vis") for b_ in f.bodies.values()}
+
+    def helper(pth):
+        sp = strip_generics(pth)
+        return sp.startswith(T + "::") and (vis.get(pth) != "pub" or sp.endswith("::stop_and_record")) and not sp.endswith("::new") and not sp.endswith("::new_coarse")
+
+    def nf(path, key, rid):
+        b0 = ctx.anchor(rid, key, f.body(path))
+        if not b0:
+            return None
+        ctx.saw(b0)
+        for cpath in {c_.res or c_.callee for c_ in b0.calls() if helper(c_.res or c_.callee or "")}:
+            ctx.saw(f.body(cpath))
+        return inline.expand_body(f, b0, helper, depth=4)
+
+    def self_field(t, name):
+        """t is field `name` of the timer the method was called on (possibly after `let mut timer = self`)."""
+        t = peel(t)
+        return isinstance(t, tuple) and len(t) == 3 and t[0] == "field" and t[2] == name and peel(t[1]) in (P(1), ("deref", P(1)))
+
+    def summary(b):
+        recs = b.calls_to(rec_callee)
+        es = b.calls_to("Instant::elapsed_sec")
+        stores = [(bi, b.term_rvalue(rv)) for bi, si, pl, rv in b.stores() if pl["p"] and pl["p"][-1][0] == "field" and pl["p"][-1][2] == "observed"]
+        return recs, es, stores
+    # T2: `observed` only ever becomes true
+    bad_w = []
     for k in f.order:
         b = f.bodies[k]
         for bi, si, pl, rv in b.stores():
-            if pl["p"] and pl["p"][-1][0] == "field" and pl["p"][-1][2] == "observed":
-                base_ty = b.local_ty(pl["l"])
-                if ty in base_ty and ("Local" in base_ty) == ("Local" in ty):
-                    writers.append((b, bi, b.term_rvalue(rv)))
-    ok = len(writers) == 1 and strip_generics(writers[0][0].path) == T + "::observe" and writers[0][2][0] == "const" and writers[0][2][1] == "true" and count_range(writers[0][0], [writers[0][1]]) == (1, 1)
-    ctx.ob("T2", ty + "|observed-set-once", ok, "`observed` may only be set to true, inside %s::observe, on every path through it (found writers %s)" % (ty, [(strip_generics(w[0].path), show(w[2])) for w in writers]))
-    # T3 observe
-    o = ctx.anchor("T3", ty + "::observe", f.body(T + "::observe"))
-    if o:
-        ctx.saw(o)
-        recs = o.calls_to(rec_callee)
-        es = o.calls_to("Instant::elapsed_sec")
-        ok = len(recs) == 1 and len(es) == 1
-        ctx.ob("T3", ty + "::observe|shape", ok, "observe must measure once and have exactly one recording site (found %d/%d)" % (len(es), len(recs)), site=o.raw["span"]["at"])
-        if ok:
-            r, e = recs[0], es[0]
-            ctx.ob("T3", ty + "::observe|value", peel(e.args[0]) == SELF_FIELD("start") and peel(r.args[1]) == e.result_term() and peel(o.term_local(0)) == e.result_term()
-                   and peel(r.args[0]) == SELF_FIELD(target_field) and count_range(o, [e.bb]) == (1, 1),
-                   "the recorded and returned value must be self.start.elapsed_sec(), recorded into self.%s" % target_field, site=r.span)
-            g = None
-            for bi in o.reachable_blocks():
-                be = o.bool_edges(bi)
-                if be and peel(be[0]) == P(2):
-                    g = (bi, be[1], be[2])
-            okg = g is not None and o.edge_dominates(g[0], g[1], r.bb) and o.all_paths_pass(g[1], [r.bb]) and r.bb not in o.reach(g[2]) and count_range(o, [r.bb]) == (0, 1) and not o.in_loop(r.bb)
-            ctx.ob("T3", ty + "::observe|record-iff-flag", okg, "the observation must be recorded exactly once when `record` is true and not at all when it is false", site=r.span)
-            eff = effect_calls(o, PURE + ["Instant::elapsed_sec"])
-            ctx.ob("T3", ty + "::observe|no-other-effects", len(eff) == 1, "observe must have no other effect (found %s)" % eff, site=o.raw["span"]["at"])
-    # T4 Drop
-    d = ctx.anchor("T4", "Drop for " + ty, f.body("<%s as std::ops::Drop>::drop" % T))
+            if pl["p"] and pl["p"][-1][0] == "field" and pl["p"][-1][2] == "observed" and ty in b.local_ty(pl["l"]) and ("Local" in b.local_ty(pl["l"])) == ("Local" in ty):
+                v = b.term_rvalue(rv)
+                if not (v[0] == "const" and v[1] == "true"):
+                    bad_w.append((strip_generics(b.path), show(v)))
+    ctx.ob("T2", ty + "|observed-set-once", not bad_w, "`observed` may only ever be set to true (found %s)" % bad_w)
+    # T3/T5: the three consuming methods
+    for m, want_rec in (("stop_and_record", True), ("observe_duration", True), ("stop_and_discard", False)):
+        b = nf("%s::%s" % (T, m), "%s::%s" % (ty, m), "T5")
+        if not b:
+            continue
+        recs, es, stores = summary(b)
+        live = b.reach_ps(0)
+        recs_live = [c for c in recs if c.bb in live]
+        ok = len(es) >= 1 and len([e for e in es if e.bb in live]) == 1
+        e = [e for e in es if e.bb in live][0] if ok else None
+        ok = ok and self_field(e.args[0], "start") and b.all_paths_pass(0, [e.bb])
+        if want_rec:
+            ok = ok and len(recs_live) == 1 and b.all_paths_pass(0, [recs_live[0].bb]) and not b.in_loop(recs_live[0].bb) \
+                and peel(recs_live[0].args[1]) == e.result_term() and self_field(recs_live[0].args[0], target_field)
+        else:
+            ok = ok and not recs_live
+        # the flag is raised on every path, so that the Drop that follows does not record again
+        st_live = [bi for bi, v in stores if bi in live]
+        ok = ok and bool(st_live) and b.all_paths_pass(0, st_live)
+        if m != "observe_duration":
+            r0 = peel(b.term_local(0))
+            rets = [peel(a_) for a_ in b.var_alts(r0[1])] if (isinstance(r0, tuple) and r0[0] == "var") else [r0]
+            ok = ok and e is not None and bool(rets) and all(x == e.result_term() for x in rets)
+        eff = [c for c in effect_calls(b, PURE + ["Instant::elapsed_sec"]) if c.bb in live and not c.matches(rec_callee)]
+        ctx.ob("T5", "%s::%s|one-observe" % (ty, m), ok and not eff,
+               "%s must measure self.start.elapsed_sec() once, %s, raise `observed` on every path%s, and do nothing else (other effects: %s)" % (
+                   m, "record exactly that value exactly once into self.%s" % target_field if want_rec else "record nothing",
+                   "" if m == "observe_duration" else " and return the measured value", eff), site=b.raw["span"]["at"])
+        b0 = f.body("%s::%s" % (T, m))
+        inputs = b0.raw.get("inputs", []) if b0 else []
+        ctx.ob("T6", "%s::%s|by-value" % (ty, m), bool(inputs) and inputs[0] == T, "%s must consume the timer (self by value), found receiver %s" % (m, inputs[:1]))
+    # T4: Drop records exactly when `observed` is still false
+    d = nf("<%s as std::ops::Drop>::drop" % T, "Drop for " + ty, "T4")
     if d:
-        ctx.saw(d)
-        cs = d.calls_to(ty + "::observe")
-        ok = len(cs) == 1 and peel(cs[0].args[0]) == P(1) and cs[0].args[1][0] == "const" and cs[0].args[1][1] == "true" and len(effect_calls(d)) == 1
+        recs, es, stores = summary(d)
         g = None
         for bi in d.reachable_blocks():
             be = d.bool_edges(bi)
-            if be:
-                cnd, tt, tf = be
-                if cnd[0] == "unop" and cnd[1] == "Not":
-                    cnd, tt, tf = cnd[2], tf, tt
-                if peel(cnd) == SELF_FIELD("observed"):
-                    g = (bi, tt, tf)
-        okg = ok and g is not None and d.edge_dominates(g[0], g[2], cs[0].bb) and d.all_paths_pass(g[2], [cs[0].bb]) and cs[0].bb not in d.reach(g[1]) and count_range(d, [cs[0].bb]) == (0, 1)
-        # no other condition guards the call
-        conds = [bi for bi in d.reachable_blocks() if d.bool_edges(bi) or d.switch_info(bi)]
-        ctx.ob("T4", ty + "::drop|records-iff-unobserved", okg and len(conds) == 1,
-               "Drop must record exactly when `observed` is still false, and must depend on nothing else (found %d conditions)" % len(conds), site=d.raw["span"]["at"])
-    # T5 by-value methods
-    for m, const, callee in (("stop_and_record", "true", ty + "::observe"), ("stop_and_discard", "false", ty + "::observe"), ("observe_duration", None, ty + "::stop_and_record")):
-        b = ctx.anchor("T5", "%s::%s" % (ty, m), f.body("%s::%s" % (T, m)))
-        if not b:
-            continue
-        ctx.saw(b)
-        cs = b.calls_to(callee)
-        eff = effect_calls(b)
-        ok = len(cs) == 1 and len(eff) == 1 and peel(cs[0].args[0]) == P(1) and count_range(b, [cs[0].bb]) == (1, 1)
-        if const is not None:
-            ok = ok and cs[0].args[1][0] == "const" and cs[0].args[1][1] == const
-            # self is dropped on every path after the call
-            holders = {1}
-            for ol, ds in b.defs().items():
-                for dd in ds:
-                    if dd[0] == "assign" and dd[3]["k"] == "use" and dd[3]["ops"][0]["k"] == "move" and dd[3]["ops"][0]["pl"]["l"] in holders and not dd[3]["ops"][0]["pl"]["p"]:
-                        holders.add(ol)
-            drops = [bi for bi in b.reachable_blocks() if b.blocks[bi]["term"]["k"] == "drop" and b.blocks[bi]["term"]["pl"]["l"] in holders and not b.blocks[bi]["term"]["pl"]["p"]]
-            ok = ok and bool(drops) and b.all_paths_pass(cs[0].bb, drops) and all(x in b.strictly_after(cs[0].bb) for x in drops)
-            if m == "stop_and_record" or m == "stop_and_discard":
-                ok = ok and peel(b.term_local(0)) == cs[0].result_term()
-        ctx.ob("T5", "%s::%s|one-observe" % (ty, m), ok,
-               "%s must call %s exactly once%s and then drop the timer" % (m, callee, (" with record=%s" % const) if const else ""), site=b.raw["span"]["at"])
-        inputs = b.raw.get("inputs", [])
-        ctx.ob("T6", "%s::%s|by-value" % (ty, m), bool(inputs) and inputs[0] == T, "%s must consume the timer (self by value), found receiver %s" % (m, inputs[:1]))
+            if be and self_field(be[0], "observed") and d.dominates(bi, recs[0].bb if recs else bi):
+                g = (bi, be[1], be[2])
+                break
+        okg = g is not None and len(recs) >= 1
+        if okg:
+            on_true, on_false = d.reach_ps(g[1]), d.reach_ps(g[2])
+            rl = [c for c in recs if c.bb in on_false]
+            okg = not [c for c in recs if c.bb in on_true and c.bb not in on_false] and len(rl) == 1 and d.all_paths_pass(g[2], [rl[0].bb]) and not d.in_loop(rl[0].bb)
+            el = [e for e in es if e.bb in on_false]
+            okg = okg and len(el) == 1 and self_field(el[0].args[0], "start") and peel(rl[0].args[1]) == el[0].result_term() and self_field(rl[0].args[0], target_field)
+            # nothing but the flag decides
+            others = [bi for bi in d.reachable_blocks() if bi != g[0] and bi in d.reach_ps(0) and (d.bool_edges(bi) or d.switch_info(bi)) and rl[0].bb in d.reach_ps(bi)
+                      and not (d.bool_edges(bi) and self_field(d.bool_edges(bi)[0], "observed"))]
+            live_others = []
+            for bi in others:
+                # a branch on the (inlined, constant) `record` argument is decided statically: both arms are not live
+                succ_live = [x for x in d.succs(bi) if x in d.reach_ps(g[2])]
+                if len(succ_live) > 1 and not all(rl[0].bb in d.reach_ps(x) or x == rl[0].bb for x in succ_live):
+                    live_others.append(bi)
+            okg = okg and not live_others
+        ctx.ob("T4", ty + "::drop|records-iff-unobserved", okg,
+               "Drop must record self.start.elapsed_sec() exactly once when `observed` is still false, nothing when it is true, and depend on nothing else", site=d.raw["span"]["at"])
     # T6 type level
     adt = ctx.anchor("T6", ty, f.adt(T))
     if adt:
